@@ -32,7 +32,13 @@ def main(argv):
     status = "ok"
     try:
         rp = spec.get("_replay")
-        if rp is not None and not (isinstance(rp, dict) and rp.get("kind") == "whole-shard"):
+        if isinstance(rp, dict) and rp.get("kind") == "mesh":
+            from pv import mesh
+            mesh.replay_case(rp, ctx, mod.MESH)
+        elif rp is None and spec.get("mode") == "mesh":
+            from pv import mesh
+            mesh.shard_run(spec, ctx, prop, mod.MESH)
+        elif rp is not None and not (isinstance(rp, dict) and rp.get("kind") == "whole-shard"):
             mod.replay(ctxmod.unhex(rp), ctx)
             if ctx.n_violations == 0 and "shard" in spec and not os.environ.get("PV_REPLAY_SINGLE"):
                 # the recorded case alone is silent: the violation may depend on what the process did before it
